@@ -1,7 +1,7 @@
 import GJS.Model.Bounds
 /-
   Model of pkg/codegen/utils.go: getMinIntType, adjustForSignedBounds, adjustForUnsignedBounds and the
-  integer branch of PrimitiveTypeFromJSONSchemaType (as the tree stands, i.e. with fix R2).
+  integer branch of PrimitiveTypeFromJSONSchemaType (as the tree stands, i.e. with fixes R2 and R17).
 -/
 namespace GJS
 
@@ -73,8 +73,9 @@ def adjustUnsigned (nMin nMax : Option Rat) : MinIntChoice :=
 def getMinIntType (lo hi : Option Rat) (xlo xhi : XB) : MinIntChoice :=
   let (nMin, exMin) := normLo lo xlo
   let (nMax, exMax) := normHi hi xhi
-  let nMin := if exMin then nMin.map (· + 1) else nMin
-  let nMax := if exMax then nMax.map (· - 1) else nMax
+  -- R17: the least and the greatest integer the bounds admit (math.Ceil / math.Floor, one further when exclusive)
+  let nMin : Option Rat := nMin.map (fun m => if exMin then ((Rat.floor m : Int) : Rat) + 1 else ((Rat.ceil m : Int) : Rat))
+  let nMax : Option Rat := nMax.map (fun m => if exMax then ((Rat.ceil m : Int) : Rat) - 1 else ((Rat.floor m : Int) : Rat))
   match nMin with
   | some m => if m ≥ 0 then adjustUnsigned nMin nMax else adjustSigned nMin nMax
   | none => adjustSigned nMin nMax
